@@ -683,6 +683,8 @@ Fixpoint ostatic (s : snode) {struct s} : obs :=
           OL (map OS ols);
           OL (map orecv recvs);
           OL (map ob kept);
+          OL (map (fun i => if nth i kept false then ohint (p_hint (nth i ps (mkParam "" None None))) else OS "-")
+                  (seq 0 (List.length kept)));     (* the hint copied onto each interface node's input *)
           OL (map (oopt on) uirecv);
           OL ((fix go (b : list (sbody snode)) : list obs :=
                  match b with
